@@ -16,7 +16,8 @@ Proof.
   unfold trecs. revert l; induction t as [|t IH]; intros [|y l]; cbn [upd flat_map]; rewrite ?in_app_iff.
   - cbn. tauto.
   - tauto.
-  - cbn [precs pobj app]. intros H. destruct (IH [] H) as [H1|H1]; [left; exact H1|right; exact H1].
+  - cbn [precs pobj]. intros [H|H]; [destruct H|].
+    destruct (IH [] H) as [H1|H1]; [left; exact H1|right; exact H1].
   - intros [H|H]; [right; left; exact H|]. destruct (IH l H) as [H1|H1]; [left; exact H1|right; right; exact H1].
 Qed.
 
@@ -63,7 +64,160 @@ Proof.
     split; [left; reflexivity|intros z Hz; right; exact Hz].
 Qed.
 
-Lemma shrink_idle_in t fuel s o : In o (vec (shrink_idle t fuel s)) -> In o (vec s).
+Lemma in_skipn {A} (x : A) k l : In x (skipn k l) -> In x l.
 Proof.
-  destruct (shrink_idle_vec t fuel s) as [k Hk]. rewrite Hk. apply skipn_In_aux.
-Abort.
+  revert l; induction k as [|k IH]; intros [|y l]; cbn [skipn]; try tauto.
+  intros H. right. apply IH, H.
+Qed.
+
+Lemma shrink_idle_in t fuel s o : In o (vec (shrink_idle t fuel s)) -> In o (vec s).
+Proof. destruct (shrink_idle_vec t fuel s) as [k Hk]. rewrite Hk. apply in_skipn. Qed.
+
+Lemma retain_loop_in t ds v s :
+  let '(s', kept, removed) := retain_loop t ds v s in forall o, In o kept -> In o v.
+Proof.
+  revert ds s; induction v as [|y r IH]; intros ds s; cbn [retain_loop]; [tauto|].
+  destruct (match ds with [] => true | d :: _ => d end).
+  - match goal with |- context [retain_loop t ?d r ?z] =>
+      specialize (IH d z); destruct (retain_loop t d r z) as [[s2 k2] r2] end.
+    intros o [H|H]; [left; exact H|right; apply IH, H].
+  - match goal with |- context [retain_loop t ?d r ?z] =>
+      specialize (IH d z); destruct (retain_loop t d r z) as [[s2 k2] r2] end.
+    intros o H. right. apply IH, H.
+Qed.
+
+(* where a record of the successor state comes from *)
+Inductive origin (s s' : state) (o' : obj) : Prop :=
+| OSame : In o' (recs s) -> origin s s' o'
+| OIdle : forall o, In o (recs s) -> o' = idle_at s o -> origin s s' o'
+| ONew : o' = new_obj s -> origin s s' o'
+| OReused : forall o, In o (recs s) -> o' = bump (recycled_obj s o) -> In o' (out s') -> origin s s' o'
+| OFirst : forall o, In o (recs s) -> o' = bump o -> In o' (out s') -> origin s s' o'.
+
+Lemma in_recs_vec s o : In o (vec s) -> In o (recs s).
+Proof. intros H. unfold recs. apply in_or_app. left. exact H. Qed.
+Lemma in_recs_out s o : In o (out s) -> In o (recs s).
+Proof. intros H. unfold recs. apply in_or_app. right. apply in_or_app. left. exact H. Qed.
+Lemma in_recs_tasks s o : In o (trecs (tasks s)) -> In o (recs s).
+Proof. intros H. unfold recs. apply in_or_app. right. apply in_or_app. right. exact H. Qed.
+Lemma in_recs_pc s t o : pobj (pcof s t) = Some o -> In o (recs s).
+Proof.
+  intros H. apply in_recs_tasks. apply (in_trecs_get o t). unfold pcof in H. unfold precs. rewrite H.
+  left. reflexivity.
+Qed.
+
+Lemma in_trecs_acquire c s t g o : In o (trecs (tasks (acquire c s t g))) -> In o (trecs (tasks s)).
+Proof.
+  destruct (acquire_tasks c s t g) as (p & Et & Hp). rewrite Et. intros H.
+  apply in_trecs_upd in H. destruct H as [H|H]; [|exact H]. unfold precs in H. rewrite Hp in H. destruct H.
+Qed.
+
+Lemma in_trecs_leave_wait s t a o : GQ s -> In o (trecs (tasks (leave_wait s t a))) -> In o (trecs (tasks s)).
+Proof. intros G. unfold leave_wait. destruct a; [apply in_trecs_sem_add, G|tauto]. Qed.
+
+Lemma in_trecs_resize s t n o : GQ s -> In o (trecs (tasks (resize_locked s t n))) -> In o (trecs (tasks s)).
+Proof.
+  intros G. unfold resize_locked. cbv zeta.
+  match goal with |- context [shrink_idle t ?f ?y] =>
+    pose proof (shrink_idle_effect t f y) as H; set (s1 := shrink_idle t f y) in * end.
+  cbv zeta in H. sp. destruct H as (H1&H2&H3&H4&H5&H6&H7&H8&H9&H10&H11&H12&H13).
+  assert (G1 : GQ s1) by (apply GQ_same with s; assumption).
+  destruct (Z.ltb n (maxs s)); [sp; rewrite H7; tauto|].
+  destruct (Z.ltb (maxs s) n); [|rewrite H7; tauto].
+  intros K. apply in_trecs_sem_add_n in K.
+  - sp. rewrite H7 in K. exact K.
+  - apply GQ_same with s1; sp; try reflexivity. exact G1.
+Qed.
+
+Lemma in_vec_resize s t n o : In o (vec (resize_locked s t n)) -> In o (vec s).
+Proof.
+  unfold resize_locked. cbv zeta.
+  match goal with |- context [shrink_idle t ?f ?y] =>
+    pose proof (shrink_idle_in t f y o) as K; set (s1 := shrink_idle t f y) in * end.
+  sp.
+  destruct (Z.ltb n (maxs s)); [sp; exact K|].
+  destruct (Z.ltb (maxs s) n); [|exact K].
+  match goal with |- context [sem_add_n ?k ?y] =>
+    pose proof (sem_add_n_fields k y) as (F1&_) end.
+  rewrite F1. sp. exact K.
+Qed.
+
+Lemma next_stage_recs c s t g o st o' :
+  (In o' (out (next_stage c s t g o st)) -> In o' (out s) \/ o' = bump (recycled_obj s o))
+  /\ (In o' (trecs (tasks (next_stage c s t g o st))) -> o' = o \/ In o' (trecs (tasks s))).
+Proof.
+  unfold next_stage, enter_stage, hand_out.
+  repeat match goal with
+         | |- context [match ?y with _ => _ end] => destruct y
+         end; sp; split; intros H;
+    try (left; exact H);
+    try (destruct H as [<-|H]; [right; reflexivity|left; exact H]);
+    try (apply in_trecs_upd in H; destruct H as [H|H]; [|right; exact H];
+         cbn [precs pobj] in H; first [contradiction|destruct H as [<-|[]]; left; reflexivity]).
+Qed.
+
+(* split membership in recs s' into vec / out / the acting task / the other tasks *)
+Ltac split_in H :=
+  unfold recs in H; sp; autorewrite with fld in H; sp;
+  repeat (apply in_app_or in H; destruct H as [H|H]).
+
+Ltac same_vec := apply OSame, in_recs_vec; assumption.
+Ltac same_out := apply OSame, in_recs_out; assumption.
+Ltac same_tasks := apply OSame, in_recs_tasks; assumption.
+
+Theorem recs_step c s l s' o' : GQ s -> step c s l = Some s' -> In o' (recs s') -> origin s s' o'.
+Proof.
+  intros G H Hin.
+  step_leaves H; split_in Hin;
+    try same_vec; try same_out;
+    try (apply in_trecs_upd in Hin; destruct Hin as [Hin|Hin]; [|same_tasks]);
+    try (cbn [precs pobj] in Hin; first [contradiction|destruct Hin as [<-|[]]]).
+  all: try (apply OSame; eapply in_recs_pc; match goal with E : pcof _ _ = _ |- _ => rewrite E; reflexivity end).
+  all: try (eapply OIdle; [eapply in_recs_pc; match goal with E : pcof _ _ = _ |- _ => rewrite E; reflexivity end|reflexivity]).
+  all: try (apply OSame, in_recs_out; eapply in_remove_oid; eassumption).
+  all: try (apply OSame, in_recs_out; eapply find_oid_in; eassumption).
+  all: try (apply ONew; reflexivity).
+  all: try match goal with E : pop_idle _ (vec _) = Some _ |- _ => destruct (pop_idle_in _ _ _ _ E) as [P1 P2] end.
+  all: try (apply OSame, in_recs_vec; auto; fail).
+  (* acquire *)
+  all: try (apply OSame, in_recs_tasks; eapply in_trecs_acquire; eassumption).
+  (* Mark *)
+  all: try (apply OSame; exact Hin).
+  (* stutter *)
+  all: try same_tasks.
+  (* hand-out of a new object *)
+  all: try (destruct Hin as [<-|Hin]; [|same_out];
+            eapply OFirst; [eapply in_recs_pc; match goal with E : pcof _ _ = _ |- _ => rewrite E; reflexivity end
+                           |reflexivity|sp; left; reflexivity]).
+  (* sem_add *)
+  all: try (apply in_trecs_upd in Hin; destruct Hin as [Hin|Hin];
+            [cbn [precs pobj] in Hin; first [contradiction|destruct Hin as [<-|[]]];
+             apply OSame; eapply in_recs_pc; match goal with E : pcof _ _ = _ |- _ => rewrite E; reflexivity end
+            |apply OSame, in_recs_tasks; first [eapply in_trecs_sem_add; eassumption
+                                              |eapply in_trecs_leave_wait; eassumption
+                                              |eapply in_trecs_resize; eassumption]]).
+  all: try (apply OSame, in_recs_vec; eapply in_vec_resize; eassumption).
+  - (* retain: kept objects *)
+    pose proof (retain_loop_in t ds (vec s) s) as K. rewrite Heqp0 in K.
+    apply OSame, in_recs_vec, K, Hin.
+  - pose proof (retain_loop_effect t ds (vec s) s) as E. rewrite Heqp0 in E.
+    destruct E as (E1&E2&E3&E4&E5&E6&E7&E8&E9&E10&E11&E12&E13&E14). rewrite E10 in Hin. same_out.
+  - pose proof (retain_loop_effect t ds (vec s) s) as E. rewrite Heqp0 in E.
+    destruct E as (E1&E2&E3&E4&E5&E6&E7&E8&E9&E10&E11&E12&E13&E14). rewrite E9 in Hin.
+    apply in_trecs_upd in Hin. destruct Hin as [Hin|Hin]; [destruct Hin|same_tasks].
+  - (* close *)
+    apply in_vec_resize in Hin. sp. same_vec.
+  - apply in_trecs_upd in Hin. destruct Hin as [Hin|Hin]; [destruct Hin|].
+    apply in_trecs_resize in Hin; [sp; same_tasks|].
+    destruct G as [H1 H2 H3 H4 H5]. constructor; sp; try assumption.
+    + intros w [].
+    + constructor.
+    + intros Hq. contradiction.
+    + reflexivity.
+  - (* next stage: the hand-out of a recycled object *)
+    destruct (next_stage_recs c s t g o st o') as [N1 N2]. destruct (N1 Hin) as [K|K]; [same_out|].
+    eapply OReused; [eapply in_recs_pc; rewrite Heqp; reflexivity|exact K|sp; exact Hin].
+  - destruct (next_stage_recs c s t g o st o') as [N1 N2]. destruct (N2 Hin) as [K|K].
+    + subst o'. apply OSame. eapply in_recs_pc. rewrite Heqp. reflexivity.
+    + same_tasks.
+Qed.
